@@ -61,13 +61,13 @@ func lmID(x lm) int {
 
 type set [3]uint64
 
-func (s set) has(i int) bool     { return s[i/64]&(1<<(uint(i)%64)) != 0 }
-func (s set) with(i int) set     { s[i/64] |= 1 << (uint(i) % 64); return s }
-func (s set) without(i int) set  { s[i/64] &^= 1 << (uint(i) % 64); return s }
-func (s set) inter(t set) set    { return set{s[0] & t[0], s[1] & t[1], s[2] & t[2]} }
-func (s set) union(t set) set    { return set{s[0] | t[0], s[1] | t[1], s[2] | t[2]} }
-func (s set) minus(t set) set    { return set{s[0] &^ t[0], s[1] &^ t[1], s[2] &^ t[2]} }
-func (s set) empty() bool        { return s[0]|s[1]|s[2] == 0 }
+func (s set) has(i int) bool    { return s[i/64]&(1<<(uint(i)%64)) != 0 }
+func (s set) with(i int) set    { s[i/64] |= 1 << (uint(i) % 64); return s }
+func (s set) without(i int) set { s[i/64] &^= 1 << (uint(i) % 64); return s }
+func (s set) inter(t set) set   { return set{s[0] & t[0], s[1] & t[1], s[2] & t[2]} }
+func (s set) union(t set) set   { return set{s[0] | t[0], s[1] | t[1], s[2] | t[2]} }
+func (s set) minus(t set) set   { return set{s[0] &^ t[0], s[1] &^ t[1], s[2] &^ t[2]} }
+func (s set) empty() bool       { return s[0]|s[1]|s[2] == 0 }
 func (s set) elems() (r []int) {
 	for i := 0; i < 192; i++ {
 		if s.has(i) {
@@ -159,11 +159,13 @@ type analysis struct {
 	namedTys  []types.Type // repo named non-interface types (T and *T)
 	invokeMem map[string][]*ssa.Function
 	// function-value flow (field-, parameter-, free-variable-, global-based)
-	fvFlow     map[string]map[*ssa.Function]bool
-	fvChanged  bool
-	wrappers   map[*ssa.Function]*wrapperInfo
-	unresolved map[string]string // key -> description
-	collecting bool
+	fvFlow      map[string]map[*ssa.Function]bool
+	fvChanged   bool
+	wrappers    map[*ssa.Function]*wrapperInfo
+	addrEscapes map[string]string
+	byStruct    map[string][]string // "pkg.Type" -> guarded field keys
+	unresolved  map[string]string   // key -> description
+	collecting  bool
 }
 
 func (a *analysis) short(s string) string {
@@ -672,9 +674,9 @@ func (a *analysis) calleesOf(fn *ssa.Function, ins ssa.Instruction, c *ssa.CallC
 // (context cancellation) or are pure helpers that touch no guarded state (the
 // IP anonymiser stored in an atomic.Value, the DNS message id generator)
 var externalFuncType = map[string]bool{
-	"context.CancelFunc": true,
+	"context.CancelFunc":           true,
 	modPrefix + "aghnet.IPMutFunc": true,
-	"func() uint16": true,
+	"func() uint16":                true,
 }
 
 // ---------------------------------------------------------------- transfer
@@ -931,6 +933,27 @@ func (a *analysis) addrTargets(addr ssa.Value) (keys []string) {
 	return keys
 }
 
+// wholeStruct: addr points to a whole struct (not freshly allocated here) of a
+// named type some of whose fields are guarded: `*c = *d.conf` reads and writes
+// all of them.
+func (a *analysis) wholeStruct(addr ssa.Value) []string {
+	if len(a.byStruct) == 0 || baseFresh(addr) {
+		return nil
+	}
+	pt, ok := addr.Type().Underlying().(*types.Pointer)
+	if !ok {
+		return nil
+	}
+	n, ok := types.Unalias(pt.Elem()).(*types.Named)
+	if !ok || n.Obj().Pkg() == nil {
+		return nil
+	}
+	if _, isStruct := n.Underlying().(*types.Struct); !isStruct {
+		return nil
+	}
+	return a.byStruct[a.short(n.Obj().Pkg().Path())+"."+n.Obj().Name()]
+}
+
 func (a *analysis) guardedLoad(v ssa.Value) string {
 	fa := loadedFrom(v)
 	if fa == nil || baseFresh(fa) {
@@ -952,10 +975,16 @@ func (a *analysis) accesses(fi *fnInfo, st relState, ins ssa.Instruction, rec fu
 		for _, k := range a.addrTargets(x.Addr) {
 			emit(k, true, "store")
 		}
+		for _, k := range a.wholeStruct(x.Addr) {
+			emit(k, true, "struct-store")
+		}
 	case *ssa.UnOp:
 		if x.Op == token.MUL {
 			for _, k := range a.addrTargets(x.X) {
 				emit(k, false, "load")
+			}
+			for _, k := range a.wholeStruct(x.X) {
+				emit(k, false, "struct-load")
 			}
 		}
 	case *ssa.MapUpdate:
@@ -1029,8 +1058,9 @@ func (a *analysis) callAccesses(fi *fnInfo, st relState, ins ssa.Instruction, c 
 	}
 	args := c.Args
 	if c.IsInvoke() {
+		// the field holds an interface: the object behind it synchronises itself
 		if k := a.guardedLoad(c.Value); k != "" {
-			emit(k, a.mutators[name], "method-"+name)
+			emit(k, false, "method-"+name)
 		}
 	}
 	for i, arg := range args {
@@ -1046,7 +1076,9 @@ func (a *analysis) callAccesses(fi *fnInfo, st relState, ins ssa.Instruction, c 
 				if isRecv {
 					emit(k, a.mutators[name], "addr-recv-"+name)
 				} else {
-					emit(k, false, "addr-escape-"+name)
+					// taking the address is not an access; what the callee does
+					// through the pointer is not tracked (counted in the evidence)
+					a.addrEscapes[k+"@"+a.fnName(fi.fn)] = a.posStr(ins.Pos())
 				}
 			}
 		}
@@ -1351,7 +1383,15 @@ func main() {
 	a := &analysis{prog: prog, fset: prog.Fset, repoDir: repo, repoPkgs: map[*types.Package]bool{},
 		fns: map[*ssa.Function]*fnInfo{}, guards: guards, mutators: mutators,
 		invokeMem: map[string][]*ssa.Function{}, fvFlow: map[string]map[*ssa.Function]bool{},
-		unresolved: map[string]string{}}
+		unresolved: map[string]string{}, addrEscapes: map[string]string{}, byStruct: map[string][]string{}}
+	for k := range guards {
+		if i := strings.LastIndex(k, "."); i > 0 {
+			a.byStruct[k[:i]] = append(a.byStruct[k[:i]], k)
+		}
+	}
+	for _, v := range a.byStruct {
+		sort.Strings(v)
+	}
 	var kept []*packages.Package
 	for _, p := range pkgs {
 		// test helpers and the separate experimental code base are not part of the server
@@ -1634,7 +1674,7 @@ func main() {
 		rn = append(rn, r.name+" = "+a.fnName(r.fn))
 	}
 	js := map[string]any{"known_keys": known, "accesses": al, "lock_order": ol, "unresolved": unres, "roots": rn,
-		"functions_reached": len(reachedFns), "functions_total": len(a.order), "guarded_fields": len(guards)}
+		"address_escapes": a.addrEscapes, "functions_reached": len(reachedFns), "functions_total": len(a.order), "guarded_fields": len(guards)}
 	os.MkdirAll(filepath.Join(verif, "work"), 0o755)
 	f, err := os.Create(filepath.Join(verif, "work", "locktable.json"))
 	if err == nil {
